@@ -613,7 +613,10 @@ Spec == Init /\ [][Next]_vars
 
 (* properties, evaluated once per value *)
 Have == phase = "have"
-Sentinel == <<SPC, 90, CR, LF>>       \* SP "Z" CRLF: the token that follows the value
+\* what follows the value on the wire: SP Z CRLF, and SP Z SP "q\"" SP {3}) CRLF (a quoted string with an
+\* escaped quote, a literal-header look-alike and a closing parenthesis behind the value)
+Sentinels == << <<SPC, 90, CR, LF>>,
+                <<SPC, 90, SPC, 34, 113, 92, 34, 34, SPC, 123, 51, 125, 41, CR, LF>> >>
 
 \* every representation a conforming peer may send reference-decodes to the canonical
 \* value, consuming exactly its own bytes, also when more input follows; it is legal
@@ -621,9 +624,9 @@ RepsDecode ==
   Have => \A m \in Modes : \A r \in RepSet(m, kind, val) :
     LET g == GrammarOf(r.g)
         p == ParseG(kind, g, r.b)
-        q == ParseG(kind, g, r.b \o Sentinel)
     IN /\ p.ok /\ p.nx = Len(r.b) + 1 /\ CanonParsed(kind, p.val) = Canon(kind, val)
-       /\ q.ok /\ q.nx = p.nx /\ q.val = p.val
+       /\ \A sn \in 1..Len(Sentinels) :
+            LET q == ParseG(kind, g, r.b \o Sentinels[sn]) IN q.ok /\ q.nx = p.nx /\ q.val = p.val
        /\ r.cls = "lib" <=> p.form.lib
        /\ (r.cls = "std" /\ (r.g \notin {"astring", "nstring"} \/ kind = "mbox")) => LegalRep(m, kind, val, r.b)
        /\ r.cls = "lib" => ~LegalRep(m, kind, val, r.b)
